@@ -602,6 +602,10 @@ func (fr *frame) applyContract(fc *FuncContract, display string, names []string,
 			c.lemmasUsed[u] = true
 		}
 	}
+	for _, e := range fc.Defines {
+		fr.assumeR(post.trBool(e.Expr))
+		c.assumed["definitional abstraction (determinism of "+display+"): "+e.Text] = true
+	}
 	return rs
 }
 
@@ -912,7 +916,17 @@ func (fr *frame) externalModel(fn *ssa.Function, args []Val, st *State, pos toke
 			return fv(c.fsqrt(c.fbin("+", c.fbin("*", args[0].T, args[0].T), c.fbin("*", args[1].T, args[1].T)))), true
 		case "Sin", "Cos", "Tan", "Asin", "Acos", "Atan", "Exp", "Log", "Sinh", "Cosh", "Tanh", "Log10", "Floor", "Ceil", "Trunc", "Round":
 			return fv(c.ufun("m_"+strings.ToLower(fn.Name()), "F", []string{"F"}, args[0].T)), true
-		case "Atan2", "Pow", "Mod", "Copysign", "Nextafter":
+		case "Nextafter":
+			// only the strict monotonicity of the step is modelled (A-NUDGE): the result lies
+			// strictly on the side of y; its size is unspecified
+			r := c.declConst("nextafter", "F")
+			x, y := args[0].T, args[1].T
+			fr.assumeR(fmt.Sprintf("(and (=> %s %s) (=> %s %s) (=> %s (= %s %s)))", c.fcmp(">", y, x), c.fcmp(">", r, x), c.fcmp("<", y, x), c.fcmp("<", r, x), c.fcmp("==", y, x), r, x))
+			if c.mode == ModeXReal {
+				fr.assumeR(fmt.Sprintf("(=> (and ((_ is xfin) %s) (not ((_ is xnan) %s))) ((_ is xfin) %s))", x, y, r))
+			}
+			return fv(r), true
+		case "Atan2", "Pow", "Mod", "Copysign":
 			return fv(c.ufun("m_"+strings.ToLower(fn.Name()), "F", []string{"F", "F"}, args[0].T, args[1].T)), true
 		case "Float64bits":
 			if c.mode == ModeUFloat {
@@ -973,6 +987,9 @@ func (fr *frame) freshError(st *State, what string) Val {
 }
 
 func (c *Ctx) fabs(a string) string {
+	if c.mode == ModeXReal {
+		return "(ite ((_ is xfin) " + a + ") (xfin (ite (>= (xval " + a + ") 0.0) (xval " + a + ") (- (xval " + a + ")))) (ite ((_ is xnan) " + a + ") xnan xpinf))"
+	}
 	switch c.mode {
 	case ModeFP:
 		return "(fp.abs " + a + ")"
@@ -983,6 +1000,10 @@ func (c *Ctx) fabs(a string) string {
 }
 
 func (c *Ctx) fsqrt(a string) string {
+	if c.mode == ModeXReal {
+		c.declOnce("m_sqrt", "(declare-fun m_sqrt (Real) Real)\n(assert (forall ((x Real)) (! (=> (>= x 0.0) (and (>= (m_sqrt x) 0.0) (= (* (m_sqrt x) (m_sqrt x)) x))) :pattern ((m_sqrt x)))))")
+		return "(ite ((_ is xfin) " + a + ") (ite (>= (xval " + a + ") 0.0) (xfin (m_sqrt (xval " + a + "))) xnan) (ite ((_ is xpinf) " + a + ") xpinf xnan))"
+	}
 	switch c.mode {
 	case ModeFP:
 		return "(fp.sqrt RNE " + a + ")"
@@ -994,6 +1015,9 @@ func (c *Ctx) fsqrt(a string) string {
 }
 
 func (c *Ctx) fisNaN(a string) string {
+	if c.mode == ModeXReal {
+		return "((_ is xnan) " + a + ")"
+	}
 	switch c.mode {
 	case ModeFP:
 		return "(fp.isNaN " + a + ")"
@@ -1004,6 +1028,9 @@ func (c *Ctx) fisNaN(a string) string {
 }
 
 func (c *Ctx) fisInf(a, sign string) string {
+	if c.mode == ModeXReal {
+		return fmt.Sprintf("(or (and ((_ is xpinf) %s) (>= %s 0)) (and ((_ is xninf) %s) (<= %s 0)))", a, sign, a, sign)
+	}
 	switch c.mode {
 	case ModeFP:
 		return fmt.Sprintf("(and (fp.isInfinite %s) (or (= %s 0) (and (> %s 0) (fp.isPositive %s)) (and (< %s 0) (fp.isNegative %s))))", a, sign, sign, a, sign, a)
